@@ -23,7 +23,7 @@ def job(sub, runtime, budget, with_sup):
         if r['kind'] == 'cancelled':
             seen.add('task_cancelled_at_a_suspension')
         claims.update(lo.terminal_claims(st.trace, complete, with_sup))
-        lp.record(sub, name, st, claims, 'C04.lifecycle', sample={'phase': r['phase'], 'events': [e[1] for e in st.trace if e[0] == 'SUPEVT'],
+        lp.record(sub, name, st, claims, 'C04.lifecycle.thread_local' if 'ThreadLocal' in runtime else 'C04.lifecycle', sample={'phase': r['phase'], 'events': [e[1] for e in st.trace if e[0] == 'SUPEVT'],
                                                                 'exits': [e[1] for e in st.trace if e[0] == 'LOOPEXIT']},
                   on_cex=lambda m, r=r: replay(tag, r['state'].trace))
         kinds = [e[1] for e in st.trace if e[0] == 'SUPEVT']
